@@ -174,7 +174,13 @@ func checkC11(c *Ctx) {
 	}
 	abortReach(c, "C11.R2", roots, c11Scope, c11Assertions)
 	rcv := P.Func("tubes", "(*Muxer).receiver")
-	loopSurvivalRule(c, "C11.R4", rcv, "tubes.(*Muxer).receiver", hopID("tubes", "Muxer", "readMsg"), func(fn *ssa.Function, from *ssa.BasicBlock, mf *MustFacts) (bool, string) {
+	// the receive call: readMsg, or, when that helper is inlined, the read on the underlying connection
+	recvCallee := hopID("tubes", "Muxer", "readMsg")
+	rawRead := hopID("transport", "MsgReader", "ReadMsg")
+	if P.Func("tubes", "(*Muxer).readMsg") == nil {
+		recvCallee = rawRead
+	}
+	loopSurvivalRule(c, "C11.R4", rcv, "tubes.(*Muxer).receiver", recvCallee, func(fn *ssa.Function, from *ssa.BasicBlock, mf *MustFacts) (bool, string) {
 		// accepted extra exit: the readMsg error test, provided a decode error was filtered out before
 		t, ok := from.Instrs[len(from.Instrs)-1].(*ssa.If)
 		if !ok {
@@ -189,6 +195,9 @@ func checkC11(c *Ctx) {
 			src = s
 		}
 		call, _ := fromCall(src)
+		if call != nil && calleeID(call) == rawRead {
+			return true, "transport read error (the read on the underlying connection itself failed)"
+		}
 		if call == nil || calleeID(call) != hopID("tubes", "Muxer", "readMsg") {
 			return false, ""
 		}
